@@ -35,10 +35,11 @@ Section Assoc.
     | [] => [(k, v)]
     | (k', v') :: t => if keqb k k' then (k, v) :: t else (k', v') :: aset k v t
     end.
+  (* removes every entry with key k (keys are unique in every reachable state) *)
   Fixpoint adel (k : K) (l : list (K * V)) : list (K * V) :=
     match l with
     | [] => []
-    | (k', v') :: t => if keqb k k' then t else (k', v') :: adel k t
+    | (k', v') :: t => if keqb k k' then adel k t else (k', v') :: adel k t
     end.
 End Assoc.
 
@@ -215,7 +216,7 @@ Definition Zs (n : N) : Z := Z.of_N n.
 Fixpoint split_dot_aux (s : string) (cur : string) : list string :=
   match s with
   | EmptyString => [cur]
-  | String a t => if Ascii.eqb a "."%char then cur :: split_dot_aux t "%string" else split_dot_aux t (cur ++ String a "%string")
+  | String a t => if Ascii.eqb a "."%char then cur :: split_dot_aux t EmptyString else split_dot_aux t (String.append cur (String a EmptyString))
   end.
 Definition words (s : string) : list string := split_dot_aux s ""%string.
 
@@ -766,7 +767,7 @@ Definition handle_method (cfg : config) (fx : fixes) (s : state) (c h : N) (m : 
     | ChClosed =>
       let ch := if fx_reopen_resets fx
                 then ch <| ch_dtag := 0 |> <| ch_ctag := 0 |> <| ch_flow := true |> <| ch_cur := None |> <| ch_qos := qos0 |>
-                        <| ch_cqos := qos0 |> <| ch_confirm := false |> <| ch_confirmq := [] |>
+                        <| ch_cqos := qos0 |> <| ch_confirm := false |> <| ch_confirmq := [] |> <| ch_unacked := [] |>
                 else ch in
       ok (set_chan s c h (ch <| ch_status := ChOpen |>)) (out1 c h SChannelOpenOk)
     | _ => ok (set_chan s c h (ch <| ch_status := ChOpen |>)) (out1 c h SChannelOpenOk)
